@@ -167,8 +167,11 @@ class DefaultScheduler(Scheduler):
                     ) + storage_usage
             if locations := [loc.wraps for loc in locations if loc.stacked]:
                 conn = cast(ConnectorWrapper, conn).connector
+                # Resolve the binds once per level, always starting from the
+                # hardware of the outer level (not from an already bound one)
+                inner_hardware = job_hardware
                 for execution_loc in locations:
-                    job_hardware = await utils.bind_mount_point(
+                    inner_hardware = await utils.bind_mount_point(
                         self.context,
                         next(
                             available_loc
@@ -181,6 +184,7 @@ class DefaultScheduler(Scheduler):
                         ),
                         job_hardware,
                     )
+                job_hardware = inner_hardware
 
     def _get_binding_filter(self, config: FilterConfig) -> BindingFilter:
         if config.name not in self.binding_filter_map:
